@@ -188,8 +188,14 @@ def _cap(viol, per_class=150):
 
 
 def _mutate(case):
-  # Replacer(Text("ab"), [(0,1)->"$$"]) produces "$$b"; "b" = [2,3) comes from [1,2) of "ab".
-  # The corrupted record claims [0,1): the trace specification has to reject it.
+  """Corrupt a recorded case: the first mapped-back patch ends one character later."""
+  for m in case["out"]["maps"]:
+    if m["kind"] == "patch":
+      m["pe"] += 1
+      m["old"] = m["src"][m["ps"]:m["pe"]]
+      return case
+  # no usable recorded case: Replacer(Text("ab"), [(0,1)->"$$"]) produces "$$b"; "b" = [2,3) comes from
+  # [1,2) of "ab", the record claims [0,1)
   b = _node("R", kids=[_node("T", text=[97, 98], val=1)], patches=[{"s": 0, "e": 1, "n": [36, 36]}])
   rec = {"s": 2, "e": 3, "sent": [90], "kind": "patch", "val": 1, "src": [97, 98], "ps": 0, "pe": 1,
          "old": [97], "new": [90]}
@@ -197,32 +203,56 @@ def _mutate(case):
           "out": {"text": [36, 36, 98], "maps": [rec]}, "exc": ""}
 
 
-def _accepts_good(workdir):
-  """The uncorrupted version of the self-test case must be accepted (the rejection is not blanket)."""
+def _selftest(ctx, files, failures):
+  """
+  Binding demonstration: a recorded case that the trace specification ACCEPTED in this run is corrupted
+  (one mapped-back patch made one character longer) and must now be rejected.
+  """
   import os
-  case = _mutate(None)
-  case["out"]["maps"][0].update(ps=1, pe=2, old=[98])
-  p = os.path.join(workdir, "selftest-good.json")
-  json.dump([case], open(p, "w"))
-  results, _ = fnspec.tlc.validate_shards(SPEC, [p], workdir, parallel=1)
-  return len(results) == 0
+  failed = set((f["file"], f["i"]) for f in failures)
+  pick = None
+  for fn in files:
+    for i, c in enumerate(json.load(open(fn))):
+      if (fn, i + 1) not in failed and c["inp"]["b"]["k"] != "T" and \
+         any(m["kind"] == "patch" for m in c["out"]["maps"]):
+        pick = c
+        break
+    if pick:
+      break
+  p = os.path.join(ctx.workdir, "selftest-src.json")
+  json.dump([pick or {"inp": {}, "out": {"maps": []}}], open(p, "w"))
+  if not fnspec.mutation_selftest(SPEC, p, _mutate, ctx.workdir):
+    raise fnspec.tlc.MachineryError("self-test: corrupted case was accepted by Trace_TextBuilder")
+  return pick is not None
 
 
 def run(ctx):
   cfg = "MC_TextBuilder_%s.cfg" % ctx.tier
-  inputs, model = fnspec.enumerate_inputs("MC_TextBuilder", cfg, ctx.workdir)
+  written, model = fnspec.enumerate_inputs("MC_TextBuilder", cfg, ctx.workdir)
+  # a tree that belongs to two chunks of the nested-Replacer family is written twice
+  inputs, seen = [], set()
+  for i in written:
+    key = json.dumps(i["b"], sort_keys=True)
+    if key not in seen:
+      seen.add(key)
+      inputs.append(i)
+  del written, seen
   ctx.log("TLC enumerated %d builder trees (%d distinct states)" % (len(inputs), model["distinct"]))
+  if 2 * len(inputs) != model["distinct"]:
+    raise fnspec.tlc.MachineryError("design model: %d trees written but %d states (2 per tree expected)"
+                                    % (len(inputs), model["distinct"]))
   n_random = 1500 if ctx.quick else 20000
   rnd = random_inputs(ctx.seed, n_random)
-  files = fnspec.run_cases(WORKER, inputs, ctx.workdir, per_shard=600 if ctx.quick else 4000)
-  rfiles = fnspec.run_cases(WORKER, rnd, ctx.workdir, tag="rnd", per_shard=100 if ctx.quick else 1000)
-  failures, n, wall = fnspec.judge(SPEC, files, ctx.workdir)
-  rfailures, rn, rwall = fnspec.judge(SPEC, rfiles, ctx.workdir)
-  ctx.log("judged %d enumerated cases in %.1fs, %d random cases in %.1fs" % (n, wall, rn, rwall))
-  if not fnspec.mutation_selftest(SPEC, files[0], _mutate, ctx.workdir):
-    raise fnspec.tlc.MachineryError("self-test: corrupted case was accepted by Trace_TextBuilder")
-  if not _accepts_good(ctx.workdir):
-    raise fnspec.tlc.MachineryError("self-test: the correct case was rejected by Trace_TextBuilder")
+  files = fnspec.run_cases(WORKER, inputs, ctx.workdir, per_shard=2000 if ctx.quick else 10000)
+  rfiles = fnspec.run_cases(WORKER, rnd, ctx.workdir, tag="rnd", per_shard=400 if ctx.quick else 1500)
+  allf, n_all, wall = fnspec.judge(SPEC, files + rfiles, ctx.workdir)
+  rset = set(rfiles)
+  failures = [f for f in allf if f["file"] not in rset]
+  rfailures = [f for f in allf if f["file"] in rset]
+  rn = len(rnd)
+  n = n_all - rn
+  ctx.log("TLC judged %d enumerated and %d random cases in %.1fs (%d JVMs)" % (n, rn, wall, len(files + rfiles)))
+  recorded = _selftest(ctx, files + rfiles, allf)
 
   n_ranges = sum(len(i["ranges"]) for i in inputs)
   nontrivial = sum(1 for i in inputs if i["ranges"] and i["b"]["k"] != "T")
@@ -238,11 +268,12 @@ def run(ctx):
   return {
     "states": model["distinct"] + n + rn, "transitions": model["generated"] + n + rn,
     "traces_validated_against_impl": n + rn,
-    "evaluations": n_ranges + r_calls, "distinct_nontrivial": nontrivial,
+    "evaluations": n_ranges, "distinct_nontrivial": nontrivial,
     "rule": "TLC enumerates every builder tree within the bound of %s and, for each, every qualifying "
             "output range (non-empty, first and last character copied from an input Text); evaluations = "
-            "map_back_patch calls recorded; non-trivial = a Replacer/Combiner tree with at least one "
-            "qualifying range" % cfg,
+            "map_back_patch calls on those ranges, every one judged (random trees: every non-empty range is "
+            "recorded and TLC judges the qualifying ones, counted separately); non-trivial = a "
+            "Replacer/Combiner tree with at least one qualifying range" % cfg,
     "samples": [i["b"] for i in inputs[len(inputs) // 2: len(inputs) // 2 + 2]],
     "exhaustive": True,
     "assumptions": ["TLC", "harness/fn_textbuilder.py builds the Text/Replacer/Combiner objects "
@@ -250,7 +281,8 @@ def run(ctx):
                     "random trees (seeded) beyond the bound are a sample, not exhaustive"],
     "violations": viol,
     "extra": {"enumerated_trees": len(inputs), "enumerated_ranges": n_ranges, "tree_shapes": shapes,
-              "random_trees": rn, "random_map_back_calls": r_calls, "violation_classes": classes},
+              "random_trees": rn, "random_map_back_calls_recorded": r_calls, "violation_classes": classes,
+              "selftest_on_recorded_case": recorded},
   }
 
 
